@@ -3,7 +3,7 @@
    the implementation's float results arrive as exact dyadic rationals and must be, up to
    2^-16, the unit vector in the direction the model computes.  No float enters Coq. *)
 From Coq Require Import List Bool Arith ZArith QArith Qcanon.
-From PC Require Import Model.Normals.
+From PC Require Import Model.Normals Gen.NormalsAcc.
 Import ListNotations.
 
 Definition qc_ops : ops := mk_ops Qc 0%Qc 1%Qc Qcplus Qcmult Qcminus Qcopp.
